@@ -328,7 +328,9 @@ def parse(path, ino, img=None):
                         h = 0
                         break
                     h = rol(h, 16) ^ e["hash"]
-                r["bhash_ok"] = (hhash == h)
+                # h_hash is only a lookup key for the kernel's block cache; 0 means "do not share" (ext4_xattr_rehash)
+                r["bhash_ok"] = (hhash == h or hhash == 0)
+                r["bhash_zero"] = (hhash == 0)
         ks = [sort_key(e) for e in r["block"]]
         r["sorted_ok"] = all(a < b for a, b in zip(ks, ks[1:]))
         r.update(img.free_counts())
